@@ -343,6 +343,13 @@ impl<'a> Gen<'a> {
         if self.pct(12) {
             return a.to_uppercase();
         }
+        if self.pct(25) {
+            // the same bytes under the other checksum variant (valid on a chain with the other codec, never here)
+            let other = if m.api == ApiKind::Bech32m { ApiKind::Bech32 } else { ApiKind::Bech32m };
+            if let Some(s) = m.api.canonicalize(&a).and_then(|c| other.humanize(&c)) {
+                return s;
+            }
+        }
         let bits = self.rng.range(1, 15) as u8;
         alt_spelling(m.api, &a, bits).unwrap_or(a)
     }
